@@ -431,3 +431,13 @@ _run_g20pre = run
 def run(ctx, rep, tier):
     _run_g20pre(ctx, rep, tier)
     _process_state_is_restored(ctx, rep, tier)
+
+
+_run_r6 = run
+
+
+def run(ctx, rep, tier):
+    _run_r6(ctx, rep, tier)
+    from .shared import delegate
+    delegate(ctx, rep, tier, "C09", ("C09.c",), "C20.h", "a tie between the best finishers of a greedy case is refused, never resolved by the iteration order of a set of identity-hashed machines")
+    delegate(ctx, rep, tier, "C19", ("C19.a", "C19.b"), "C20.i", "resolving the options never writes to the class-level tables it reads (level sets, defaults): a later compilation in the same process starts from the same tables")
